@@ -139,6 +139,14 @@ def run(chk):
         return True, "", [c.loc for c in tails] + [c.loc for c in ie]
     chk.ob("C16.R1b:leftover-parts", "parts left over after the common prefix: a hole or non-empty text makes the templates unequal", leftovers)
 
+    def cursors():
+        eqb = P.body(EQ)
+        ok, detail, sites = panics.cursor_pairing(eqb)
+        if ok and len(sites) < 2:
+            raise mir.AnchorMissing("cursor-indexed sequences in Template::eq (found %d)" % len(sites))
+        return ok, detail, sites, (sites[0] if sites else eqb.span)
+    chk.ob("C16.R1c:cursor-pairing", "each cursor of the fragment-insensitive comparison indexes only the sequence whose length bounds it", cursors)
+
     def hole_labels_compared():
         # in the lock-step loop the Hole/Hole arm compares labels and a kind mismatch returns false
         ne = [c for c in eqb.calls(normal_only=True) if c.callee.get("name") in ("ne", "eq") and "Str" in (c.callee.get("full") or "")]
@@ -322,6 +330,20 @@ def run(chk):
     if True:
         from . import corpus
         corpus.template_rules(chk, "C16")
+    def fmt_flags_verbatim():
+        b = P.body("emit_macros::fmt::Args::to_format_args")
+        shown = [c for c in b.calls(normal_only=True) if c.callee.get("name") in ("new_display", "new_debug") and "Argument" in (c.callee.get("full") or c.callee.get("path") or "")]
+        if len(shown) != 1:
+            raise mir.AnchorMissing("the one displayed argument of to_format_args (found %d)" % len(shown))
+        o = b.origin(shown[0].args[0], through_calls=("deref", "as_str", "as_ref", "borrow"))
+        root, names = mir.o_field_path(o)
+        if not (names == ["flags"] and root is not None and mir.o_is_param(root, idx=1)):
+            return False, ("the format flags written into the generated `{:...}` are %s, not the attribute's flags verbatim: a flag "
+                           "string is a complete format spec (a leading `:` is a fill character), so any rewriting changes how the hole "
+                           "is rendered compared with the same formatter given by hand" % o_str(o)), [], shown[0].loc
+        return True, "", [shown[0].loc]
+    chk.ob("C16.R3:fmt-flags-verbatim", "#[emit::fmt] hands its flags to the generated format string unchanged", fmt_flags_verbatim)
+
     # macro/runtime boundary: what the expansion passes at each named hook parameter (read off emit_macros' quote! templates)
     from . import quotes
     quotes.boundary_rule(chk, P, "C16", {"__private_format", "__private_emit", "__private_evt"}, 4)
